@@ -104,6 +104,14 @@ func H_Paths() {
 		q := mt2.GetPathByIndex(idx)
 		vp.Assert("C19.settree-same-path", q.LeafIndex == p.LeafIndex && sameStrs(q.Nodes, p.Nodes))
 	}
+	// a rejected load must leave the loaded tree intact: paths still verify afterwards
+	if vp.NoPanic("C19.nopanic", func() {
+		vp.Assert("C19.settree-wrong-size-rejected", mt.SetTree(n+vp.Param("wrongdelta", 5), mt.GetTree()) != nil)
+		q := mt.GetPathByIndex(idx)
+		vp.Assert("C19.rejected-load-leaves-tree-intact", mt.GetRoot() == root && util.VerifyMerklePath(own, q, root))
+	}) {
+		return
+	}
 	mt3 := &util.MerkleTree{}
 	vp.Assert("C19.settree-wrong-size-rejected", mt3.SetTree(n+1, mt.GetTree()) != nil)
 	if n > 1 {
